@@ -12,7 +12,7 @@ THEOREMS = [
     "Sb.C05.crc_of_corrupted",
             "Sb.C05.detect_window_after_field", "Sb.C05.detect_byte_after_field", "Sb.C05.detect_two_bits_after_field", "Sb.C05.detect_field_bit_and_data_bit", "Sb.C05.generator_order",
             "Sb.C05.fileCrc_two_bits", "Sb.C05.detect_two_bits_up_to_period", "Sb.C05.detect_two_bits_gap", "Sb.C05.two_bits_one_period_apart_undetected",
-            "Sb.C05.fileCrc_one_bit", "Sb.C05.detect_field_bit_and_data_bit_up_to_period", "Sb.C05.field_bit_and_data_bit_one_period_apart_undetected",
+            "Sb.C05.corruption_undetected_iff", "Sb.C05.corruption_undetected_iff_bytes", "Sb.C05.le32_xor", "Sb.C05.data_corruption_undetected_iff", "Sb.C05.detect_two_distinct_data_bits", "Sb.C05.crc_bitPat", "Sb.C05.fileCrc_one_bit", "Sb.C05.detect_field_bit_and_data_bit_up_to_period", "Sb.C05.field_bit_and_data_bit_one_period_apart_undetected",
             "Sb.Proofs.crc_one_bit_ne_basis_period", "Sb.Proofs.crc_one_bit_eq_basis_at_period", "Sb.Proofs.fieldDistance_lt",
             "Sb.Proofs.crc_two_bits_ne_period", "Sb.Proofs.crc_two_bits_at_period", "Sb.Proofs.bitDistance_lt", "Sb.Proofs.period_full",
             "Sb.Proofs.crc_window4", "Sb.Proofs.crc_window_changes", "Sb.Proofs.no_small_period", "Sb.Proofs.sqTab_step", "Sb.Proofs.app_matOf"]
@@ -20,7 +20,7 @@ RULE = ("crcupd: all 256 single bytes from crc 0 (= all table entries) and from 
         "(short) / seeded split points (long, lengths around multiples of 256); facc: valid checksummed files of lengths "
         "{10,11,160,255,256,257,511,512,513,seeded<=3000} through both routes; fcorr: for each such file every single-bit flip at offset>=6 "
         "(thorough: all files; quick: the short ones + a seeded sample), seeded double-bit flips, every 1..4-byte window not straddling "
-        "the end of the field with patterns {00,ff,^ff,+1,seeded}; expected verdict ECORRUPTED on both routes. Distinct = distinct case line.")
+        "the end of the field with patterns {00,ff,^ff,+1,seeded}; expected verdict ECORRUPTED on both routes; compensated alterations (data pattern + its checksum folded into the stored word: accepted; one more bit of the word: corrupted).  Distinct = distinct case line.")
 ASSUMPTIONS = ["regular-file semantics of read/lseek for the descriptor route (memfd)"]
 
 
@@ -163,6 +163,27 @@ def generate(rng, tier):
                     g[k] ^= 1 << rng.randrange(8)
                     seq += [bytes(g), f]
                 out.append((f"faccseq {route} " + " ".join(hx(x) for x in seq), True))
+        # the error-pattern criterion (corruption_undetected_iff) on the real code: a data alteration `erest` whose
+        # checksum is folded into the stored word is NOT a corruption, and with one further bit of the word it is
+        if 11 <= len(f) <= 600:
+            for _ in range(3):
+                n = len(f) - 10
+                if rng.random() < 0.5:
+                    erest = bytearray(n)
+                    for _k in range(rng.randint(1, 3)):
+                        erest[rng.randrange(n)] ^= 1 << rng.randrange(8)
+                else:
+                    erest = bytearray(rand_bytes(rng, n))
+                delta = ap_crc32(bytes(10) + bytes(erest))
+                g = bytearray(f)
+                for j in range(n):
+                    g[10 + j] ^= erest[j]
+                word = int.from_bytes(f[6:10], "little") ^ delta
+                g[6:10] = word.to_bytes(4, "little")
+                route = rng.choice("mf")
+                out.append((f"facc {route} {hx(g)}", True))
+                g[6:10] = (word ^ (1 << rng.randrange(32))).to_bytes(4, "little")
+                out.append((f"fcorr {route} {hx(g)}", True))
         nbits = (len(f) - 6) * 8
         if thorough or len(f) <= 257:
             flips = range(nbits)
